@@ -707,13 +707,19 @@ fn show_summary(s: &Summ) -> String {
         Summ::Some(kv) => format!("{{{}}}", kv.iter().map(|(k, v)| format!("{}:{}", k, show_f64(*v))).collect::<Vec<_>>().join(",")),
     }
 }
+fn totals(r: &Route) -> Vec<f64> {
+    match r {
+        Ok(l) => l.iter().map(|et| et.total_cost().as_f64()).collect(),
+        Err(_) => vec![],
+    }
+}
 fn show_outcome(o: &Outcome) -> String {
     if let Some(b) = &o.build_err {
         return format!("BuildErr {}", b);
     }
     format!(
         "{} sum={}",
-        o.routes.iter().map(|(n, r)| format!("{}={}", n, show_route(r))).collect::<Vec<_>>().join(" "),
+        o.routes.iter().map(|(n, r)| format!("{}={}/{}", n, show_route(r), show_list(&totals(r), |x| show_f64(*x)))).collect::<Vec<_>>().join(" "),
         show_summary(&o.summary)
     )
 }
@@ -738,8 +744,9 @@ fn coq_outcome(o: &Outcome) -> String {
         return format!("(TR.OBuildErr {})", coq_string(b));
     }
     format!(
-        "(TR.ORoutes {} {})",
+        "(TR.ORoutes {} {} {})",
         coq_list(&o.routes, |(n, r)| format!("({}, {})", coq_string(n), coq_route(r))),
+        coq_list(&o.routes, |(_, r)| coq_list(&totals(r), |x| coq_f64(*x))),
         match &o.summary {
             Summ::None => "(Err \"none\"%string)".to_string(),
             Summ::Panic => "(Panic \"\"%string)".to_string(),
@@ -781,9 +788,10 @@ fn add_case(st: &mut Stream, c: Case, family: &str, dir: &Path, plugin: &Travers
     ];
     let mut payload = show_outcome(&o);
     if let Op::Search(_, _, _) = &c.op {
-        // a failed search (no route to re-traverse) is shown as is; the model then prints an empty list of routes
+        // no path between the two vertices: nothing is returned, nothing to judge (the model prints no route either);
+        // any other failure of the search is shown and makes the case differ
         if o.routes.iter().any(|(_, r)| r.is_err()) {
-            payload = format!("search-failed {}", payload);
+            payload = if o.routes.iter().all(|(_, r)| matches!(r, Err(s) if s == "Err nopath")) { " sum=None".to_string() } else { format!("search-failed {}", payload) };
         }
     }
     // ---- histogram
@@ -1329,9 +1337,9 @@ fn main() {
         return;
     }
     let mut rng = Rng::new(a.seed);
-    // `pair-summary`: also render routes of configurations with an edge-pair network rate (known to panic in the
-    // output plugin, see Model/TraversalRun.v summary_of); off unless the finding is registered
-    let pair_summary = a.extra.iter().any(|x| x == "pair-summary");
+    // routes of configurations with an edge-pair network rate are rendered by the output plugin as well (this
+    // panicked in serialize_cost_info before /repo a6b1264; `no-pair-summary` restores the old exclusion)
+    let pair_summary = !a.extra.iter().any(|x| x == "no-pair-summary");
     match name.as_str() {
         "search" => {
             while st.next_id() < a.n {
